@@ -147,37 +147,48 @@ class Ctx:
             raise BuildError('prdata-phase dump failed: ' + p.stderr[-2000:])
         self.tick('prdrv', t)
 
-    def build_kissel_config(self):
-        """second data configuration: the Kissel table regenerated synthetically (tools/synth_kissel.py, well-formed, not
-        physical) so that the Kissel/cascade CODE is exercised with values; same code objects, new table object"""
-        if getattr(self, 'kissel_ready', False): return
+    def build_kissel_config(self, kind='synth'):
+        """further data configurations of the Kissel table, built through the real prdata with the same code objects:
+        kind='real'  (suffix R): data/kissel_pe.dat REGENERATED from the raw files of data/kissel by tools/regen_kissel.py
+                     (a port of data/kissel/kissel.pro) — the configuration the properties name;
+        kind='synth' (suffix K): a synthetic, well-formed, non-physical table (tools/synth_kissel.py) whose values stress
+                     branches the physical table never reaches.
+        -> suffix; binaries cdrv<suffix>, dump<suffix>, tables dump<suffix>.bin"""
+        suf = {'real': 'R', 'synth': 'K'}[kind]
+        if suf in getattr(self, 'kissel_ready', set()): return suf
         t = time.time()
-        root = self.sc.path('kroot'); os.makedirs(os.path.join(root, 'data'), exist_ok=True)
+        root = self.sc.path('kroot' + suf); os.makedirs(os.path.join(root, 'data'), exist_ok=True)
         for f in os.listdir(os.path.join(REPO, 'data')):
             src = os.path.join(REPO, 'data', f); dst = os.path.join(root, 'data', f)
             if f != 'kissel_pe.dat' and not os.path.exists(dst): os.symlink(src, dst)
-        lines = ['EdgeEnergy %d %d N' % (Z, s) for Z in range(1, 121) for s in range(28)]
-        out = self.run_c(lines)
-        with open(self.sc.path('edges.txt'), 'w') as f:
-            for l, o in zip(lines, out):
-                p = parse_answer(o)
-                if p['kind'] == 'ok' and p['vals'][0] > 0:
-                    _, Z, s_, _ = l.split(); f.write('%s %s %.17g\n' % (Z, s_, p['vals'][0]))
-        p = subprocess.run([sys.executable, os.path.join(VERIF, 'tools', 'synth_kissel.py'), self.sc.path('edges.txt'),
-                            os.path.join(root, 'data', 'kissel_pe.dat')], capture_output=True, text=True)
-        if p.returncode != 0: raise BuildError('synth_kissel.py failed: ' + p.stderr[-1000:])
-        inline = cbuild.build_prdata(self.sc, REPO, data_root=root, bname='bK')
-        o = self.sc.path('o_san', 'xrayglob_inline_K.c.o')
+        if kind == 'synth':
+            lines = ['EdgeEnergy %d %d N' % (Z, s) for Z in range(1, 121) for s in range(28)]
+            out = self.run_c(lines)
+            with open(self.sc.path('edges.txt'), 'w') as f:
+                for l, o in zip(lines, out):
+                    p = parse_answer(o)
+                    if p['kind'] == 'ok' and p['vals'][0] > 0:
+                        _, Z, s_, _ = l.split(); f.write('%s %s %.17g\n' % (Z, s_, p['vals'][0]))
+            p = subprocess.run([sys.executable, os.path.join(VERIF, 'tools', 'synth_kissel.py'), self.sc.path('edges.txt'),
+                                os.path.join(root, 'data', 'kissel_pe.dat')], capture_output=True, text=True)
+            if p.returncode != 0: raise BuildError('synth_kissel.py failed: ' + p.stderr[-1000:])
+        else:
+            p = subprocess.run([sys.executable, os.path.join(VERIF, 'tools', 'regen_kissel.py'), os.path.join(REPO, 'data', 'kissel'),
+                                os.path.join(root, 'data', 'kissel_pe.dat')], capture_output=True, text=True)
+            if p.returncode != 0: raise BuildError('regen_kissel.py failed: ' + p.stderr[-1000:])
+        inline = cbuild.build_prdata(self.sc, REPO, data_root=root, bname='b' + suf)
+        o = self.sc.path('o_san', 'xrayglob_inline_%s.c.o' % suf)
         cbuild.run(['clang-14'] + cbuild.cflags(REPO, self.sc.path('b')) + ['-O0', '-g0', '-w', '-fsanitize=address', '-c', inline, '-o', o])
         objs = [x for x in self.objs if not x.endswith('xrayglob_inline.c.o')] + [o]
         aux = self.sc.path('aux')
-        cbuild.link(self.sc, objs, [os.path.join(VERIF, 'harness', 'cdrv.c')], self.sc.path('cdrvK'), self.cfl + ['-I' + aux, '-I' + os.path.join(VERIF, 'harness')])
-        cbuild.link(self.sc, objs, [os.path.join(aux, 'dump_gen.c')], self.sc.path('dumpK'), self.cfl)
-        cbuild.vector_lengths(inline, self.sc.path('lensK.txt'), {k: v['dims'] for k, v in self.meta['tables'].items() if v['ptr']})
-        p = subprocess.run([self.sc.path('dumpK'), self.sc.path('dumpK.bin'), self.sc.path('dumpK.idx'), self.sc.path('lensK.txt')], capture_output=True, text=True)
-        if p.returncode != 0: raise BuildError('table dump (Kissel configuration) failed: ' + p.stderr[-2000:])
-        self.kissel_ready = True
-        self.tick('kissel_config', t)
+        cbuild.link(self.sc, objs, [os.path.join(VERIF, 'harness', 'cdrv.c')], self.sc.path('cdrv' + suf), self.cfl + ['-I' + aux, '-I' + os.path.join(VERIF, 'harness')])
+        cbuild.link(self.sc, objs, [os.path.join(aux, 'dump_gen.c')], self.sc.path('dump' + suf), self.cfl)
+        cbuild.vector_lengths(inline, self.sc.path('lens%s.txt' % suf), {k: v['dims'] for k, v in self.meta['tables'].items() if v['ptr']})
+        p = subprocess.run([self.sc.path('dump' + suf), self.sc.path('dump%s.bin' % suf), self.sc.path('dump%s.idx' % suf), self.sc.path('lens%s.txt' % suf)], capture_output=True, text=True)
+        if p.returncode != 0: raise BuildError('table dump (Kissel configuration %s) failed: ' % kind + p.stderr[-2000:])
+        self.kissel_ready = getattr(self, 'kissel_ready', set()) | {suf}
+        self.tick('kissel_config_' + kind, t)
+        return suf
 
     def run_prdrv(self, lines):
         class A: pass
